@@ -29,7 +29,7 @@ int main()
   Obl a1{"metadata.file_name", "C12", "", "file_name() = text after the last '/' up to the last ':'"};
   Obl a2{"metadata.full_path_and_line", "C12", "", "full_path() = text before the last ':', line() = text after it"};
   Obl a3{"metadata.short_source_location", "C12", "", "short_source_location() = text after the last '/'"};
-  Obl b1{"metadata.named_args_detected", "C19", "", "a template with a field whose name is non-empty and starts with a letter is detected as having named args (valid fmt templates; the converse is not demanded by the property)"};
+  Obl b1{"metadata.named_args_detected", "C19", "", "a template whose placeholders are all named ({name} / {name:spec}, name starting with a letter) is detected as having named args (the converse, and templates mixing positional and named placeholders, are not demanded by the property)"};
   long n1 = 0, n2 = 0;
   for_all_strings("/:.a1", LEN, [&](std::string const& s) {
     if (s.find(':') == std::string::npos) return;      // the macro always produces file:line
@@ -43,7 +43,7 @@ int main()
   for_all_strings("{}:aZ0 ", LEN, [&](std::string const& t) {
     KV keys; if (!spec(t, keys)) return;
     n2++;
-    bool want = false; for (auto& k : keys) if (!k.first.empty() && ((k.first[0] >= 'a' && k.first[0] <= 'z') || (k.first[0] >= 'A' && k.first[0] <= 'Z'))) want = true;
+    bool want = !keys.empty(); for (auto& k : keys) if (!(!k.first.empty() && ((k.first[0] >= 'a' && k.first[0] <= 'z') || (k.first[0] >= 'A' && k.first[0] <= 'Z')))) want = false;   /* every placeholder is a named one */
     if (want) check(b1, quill::MacroMetadata::_contains_named_args(t), t);
   });
   printf("SPACE source locations: every string of length <= %d over / : . a 1 containing ':'; templates: every valid fmt template of length <= %d over { } : a Z 0 space\n", LEN, LEN);
